@@ -393,8 +393,12 @@ def main(argv=None):
     cov["explanation"] = ("bounded stand-in counts are in evaluations / distinct_nontrivial; the deductive obligations of "
                           "this property's contracts are reported in obligations / discharged")
   os.makedirs(os.path.join(VERIF, "evidence"), exist_ok=True)
+  scratch = os.environ.get("VERIF_REPO") not in (None, "", "/repo")
   if not args.no_bounded and not args.only:      # development flags do not produce evidence
-    _validate_and_write(ev, os.path.join(VERIF, "evidence", f"{prop}.json"))
+    # runs against a scratch copy of the repository (seeded changes) never overwrite the committed evidence
+    edir = os.path.join(VERIF, "evidence", "scratch") if scratch else os.path.join(VERIF, "evidence")
+    os.makedirs(edir, exist_ok=True)
+    _validate_and_write(ev, os.path.join(edir, f"{prop}.json"))
 
   for l in sorted(set(known_lines)):
     print(l)
